@@ -203,6 +203,27 @@ def run_case(inp):
                           f"({'even' if any(s % 2 == 0 for s in shape) else 'odd'} template {shape})")
             if cc < 0.97:
                 V("loader-roundtrip", f"loading at the simulated molecule correlates only {cc:.3f} with the template")
+        elif kind == "deep2d":
+            # molecules deep along z (many template heights): the projected volume must still contain them
+            tmpl = r.integers(1, 9, size=shape).astype(np.float32)
+            c = (np.array(shape) - 1) / 2
+            nm = inp["nmol"]
+            corners = np.array([[int(inp["depth"]) - 7 * j, int(r.integers(0, N[1] - shape[1] + 1)),
+                                 int(r.integers(0, N[2] - shape[2] + 1))] for j in range(nm)])
+            pos_px = corners + c
+            sim = TomogramSimulator(order=order, scale=scale)
+            sim.add_molecules(Molecules(pos_px * scale), tmpl)
+            try:
+                p2 = np.asarray(sim.simulate_2d(N[1:]))
+            except Exception as e:  # noqa: BLE001
+                V("no-error", f"simulate_2d raised {type(e).__name__}: {str(e)[:120]}")
+                return viols
+            want = np.zeros(N[1:], dtype=np.float64)
+            for k in corners:
+                want[k[1]:k[1] + shape[1], k[2]:k[2] + shape[2]] += tmpl.sum(axis=0)
+            if not np.allclose(p2, want, atol=1e-3 * (1 + np.abs(want).max())):
+                V("projection", f"simulate_2d of molecules at depth {int(inp['depth'])} px (scale {scale}) differs from the "
+                                f"projected templates by {np.abs(p2 - want).max():.4g}")
         elif kind == "outside":
             tmpl = r.integers(1, 5, size=shape).astype(np.float32)
             pos_px = np.array([[-30.0, 5, 5], [N[0] + 25.0, 5, 5], [5, -3.0, N[2] + 2.0], [N[0] / 2, N[1] / 2, N[2] / 2]])
@@ -231,6 +252,10 @@ def oracle(rng, thorough, deep=False, hints=None):
         vol[it % 3] = int(rng.integers(2, 5))
         cases.append(dict(kind="exact", tshape=list(tshapes[it % len(tshapes)]), scale=float(rng.choice([1.0, 0.5])),
                           order=int(rng.choice([0, 1, 3])), volume=vol, nmol=[1, 2][it % 2], seed=int(rng.integers(0, 10 ** 6))))
+    for it in range(8 if big else 4):
+        cases.append(dict(kind="deep2d", tshape=list(tshapes[it % len(tshapes)]), scale=[0.5, 0.25, 2.0, 1.0, 0.125][it % 5],
+                          order=int(rng.choice([0, 1, 3])), volume=[4] + [int(x) for x in rng.integers(8, 14, size=2)],
+                          depth=int(rng.integers(40, 160)), nmol=[1, 3][it % 2], seed=int(rng.integers(0, 10 ** 6))))
     for it in range(3 if big else 1):
         cases.append(dict(kind="overwrite", tshape=[9, 10, 9], scale=float([1.0, 0.5][it % 2]), order=[1, 3, 0][it % 3],
                           volume=[26, 24, 25], seed=int(rng.integers(0, 10 ** 6))))
